@@ -77,8 +77,12 @@ func verifC10Like() {
 	s := verifStore10()
 	next := uint32(10)
 	create := func() (uint32, error) { next++; return next, nil }
-	v1 := verifSymBytes("value", 1+verifChoose("value.len", 2))
-	v2 := verifSymBytes("value", 1+verifChoose("value.len", 2))
+	maxValue, maxPattern := 2, 3
+	if verifThorough() {
+		maxValue, maxPattern = 4, 7 // e.g. "*a*b*", "ab*cd*" against 4-byte values
+	}
+	v1 := verifSymBytes("value", 1+verifChoose("value.len", maxValue))
+	v2 := verifSymBytes("value", 1+verifChoose("value.len", maxValue))
 	for _, b := range append(append([]byte{}, v1...), v2...) {
 		verifAssume(b != '*') // tag values are data; '*' is the pattern's wildcard
 	}
@@ -92,7 +96,7 @@ func verifC10Like() {
 	id2, _, _ := s.GetOrCreateValue(1, v2, create)
 	verifAssert(id1 != id2, "different values have different ids")
 
-	pattern := verifSymBytes("pattern", verifChoose("pattern.len", 4))
+	pattern := verifSymBytes("pattern", verifChoose("pattern.len", maxPattern+1))
 	ids, err := s.FindValuesByExpr(1, &stmt.LikeExpr{Key: "k", Value: string(pattern)})
 	verifAssert(err == nil, "like evaluation succeeds")
 	got1, got2 := false, false
